@@ -25,6 +25,9 @@ def _own_nodes(F, fn):
         if t.get('k') == 'ref' and t['ty'].get('k') == 'adt' and t['ty']['path'] in NODE_ADTS:
             d = t['ty']['args'][0]
             out[names.get(i, 'arg%d' % i)] = d['path'] if d.get('k') == 'adt' else d.get('str')
+        else:
+            from common import bundle_nodes
+            out.update(bundle_nodes(F, t))
     return out
 
 
